@@ -23,12 +23,13 @@ def run(ctx):
     chains = gen_chain_strings(rng, 8 if ctx.quick() else 100)
     lines, meta = [], []
     for d in inputs:
+        def slc(): return rng.choice([0, 3, 2, 2]) if len(d) <= 20000 else rng.choice([0, 3])      # 2 = one output byte per call: a call ends inside every field, header, padding and footer
         for p in ([0, 3, 6] if ctx.quick() else range(10)):
-            chk = rng.choice([0, 1, 4, 10]); lines.append('enc 0 %d %d %d - %s' % (p | (chk << 8), rng.choice([0, 3]), rng.randrange(99999), d.hex() or '-')); meta.append((d, 'easy %d check %d' % (p, chk), 'xz'))
+            chk = rng.choice([0, 1, 4, 10]); lines.append('enc 0 %d %d %d - %s' % (p | (chk << 8), slc(), rng.randrange(99999), d.hex() or '-')); meta.append((d, 'easy %d check %d' % (p, chk), 'xz'))
         for fs, dsz in rng.sample(chains, 3):
-            chk = rng.choice([0, 1, 4, 10]); lines.append('enc 4 %d %d %d %s %s' % (chk << 8, rng.choice([0, 3]), rng.randrange(99999), fs, d.hex() or '-')); meta.append((d, 'stream ' + fs, 'xz'))
+            chk = rng.choice([0, 1, 4, 10]); lines.append('enc 4 %d %d %d %s %s' % (chk << 8, slc(), rng.randrange(99999), fs, d.hex() or '-')); meta.append((d, 'stream ' + fs, 'xz'))
         th = rng.randrange(4); bs = rng.choice([1, 2, 4])
-        lines.append('enc 1 %d %d %d - %s' % (1 | (4 << 8) | (th << 12) | (bs << 20), rng.choice([0, 3]), rng.randrange(99999), d.hex() or '-')); meta.append((d, 'mt threads %d block %d' % (th + 1, bs * 4096), 'xz'))
+        lines.append('enc 1 %d %d %d - %s' % (1 | (4 << 8) | (th << 12) | (bs << 20), slc(), rng.randrange(99999), d.hex() or '-')); meta.append((d, 'mt threads %d block %d' % (th + 1, bs * 4096), 'xz'))
         lines.append('enc 2 %d 0 0 - %s' % (rng.choice([0, 2, 6]), d.hex() or '-')); meta.append((d, 'alone', 'alone'))
     # declared dictionary size: sizes that are not of the form 2^n / 3*2^(n-1) must be rounded UP in the LZMA2 properties byte;
     # data that repeats at a distance between the next lower encodable size and the requested size has matches there
